@@ -1,5 +1,6 @@
 """Turns task results into verdict, evidence file, replay files and exit code."""
 import json
+from . import solve as SOLVE
 import os
 import subprocess
 import sys
@@ -97,7 +98,10 @@ def check_property(pid, tier, seed, args, t0):
 
     expected_all = CLI.load_json(CLI.EXPECTED, {})
     if args.record_expected:
-        expected_all[pid] = sorted(l for l, s in status.items() if s == 'discharged')
+        # labels that exist only below a path kept because the feasibility solver gave up are
+        # not expected of later runs
+        expected_all[pid] = sorted(l for l, s in status.items() if s == 'discharged'
+                                   and not all(o.get('uncertain_path') for o in by_label[l]))
         with open(CLI.EXPECTED, 'w') as f:
             json.dump(expected_all, f, indent=1, sort_keys=True)
         print('recorded %d expected obligations for %s' % (len(expected_all[pid]), pid))
@@ -236,6 +240,12 @@ def check_property(pid, tier, seed, args, t0):
             'lemmas': {n: bool(v) for n, v in lemma_ok.items()},
             'obligation_labels': {l: s for l, s in sorted(status.items())},
             'backends': backends, 'solver_time_s': solver_time,
+            'slowest_obligations': [
+                {'obligation': o['name'], 'time_s': o.get('time'), 'backend': o.get('backend')}
+                for o in sorted(mine, key=lambda o: -(o.get('time') or 0))[:8]],
+            'solver_budget': 'z3 %d ms wall per attempt (fuel ladder), cvc5 %d ms on z3 unknowns; '
+                             'path feasibility: z3 rlimit (deterministic), not wall clock' % (
+                                 SOLVE.Z3_TIMEOUT_MS, SOLVE.CVC5_TIMEOUT_MS),
             'bounded_standins': bounded,
             'undecided': [l for l, _ in undecided], 'missing_expected': missing,
             'unsupported': unsupported, 'errors': errors,
